@@ -17,6 +17,8 @@ import os
 import shutil
 import tempfile
 
+from .. import refmodel as R
+
 MOD = "mzcheck.checks.c05"
 
 GEN_KW = {"gen_dfs": {}, "gen_wilson": {}, "gen_percolation": {"p": 0.4}, "gen_dfs_percolation": {"p": 0.3}, "gen_prim": {}}
@@ -71,11 +73,23 @@ def dataset_specs(tier):
         #  the dataset's own business and not a round-trip question)
         for mode in ("no_generation_meta", "collected_meta"):
             out.append((("stale", 3, "x1m2", delta, mode), "all"))
+    # dataset sizes beyond the small scope (block / batch boundaries of a format), configurations with long float arguments
+    for n in many_counts(tier):
+        out.append((("many", 3, n, "no_generation_meta"), "direct"))
     # solution lengths across the 127/128 and 255/256 boundaries
     out.append((("long", 12, (127, 128, 129, 144), "no_generation_meta"), "all"))
     out.append((("long", 12, (3, 144, 2), "no_generation_meta"), "direct"))
     out.append((("long", 17, (255, 256, 257, 289), "no_generation_meta"), "all" if not quick else "direct"))
     return out
+
+
+LONG_FLOATS = [1 / 3, 0.1 + 0.2, 2 / 7, 0.5 + 1e-11, 0.123456789012345678]
+
+
+def many_counts(tier):
+    """dataset sizes: every count 1..130, then around 256, 500, 512, 1000, 1024, 1200, 2048 (thorough: 4096, 10000)"""
+    c = list(range(1, 131)) + [255, 256, 257, 499, 500, 501, 511, 512, 513, 999, 1000, 1001, 1023, 1024, 1025, 1203, 2047, 2048, 2049]
+    return c if tier == "quick" else c + [4095, 4096, 4097, 9999, 10000, 10001]
 
 
 def thresholds_for(n):
@@ -87,7 +101,7 @@ def thresholds_for(n):
 
 
 def cases_for(dspec, family="all"):
-    n = dspec[3] if dspec[0] == "gen" else len(dspec[2])  # ("craft", g, pattern, mode) / ("long", g, lengths, mode): one maze per entry
+    n = dspec[3] if dspec[0] == "gen" else dspec[2] if dspec[0] == "many" else len(dspec[2])  # ("craft", g, pattern, mode) / ("long", g, lengths, mode): one maze per entry
     fmts = [("direct", f) for f in DIRECT_FORMATS] + ([("thr", t) for t in thresholds_for(n)] if family == "all" else [])
     return [(dspec, f, tr) for f in fmts for tr in ("memory", "file")]
 
@@ -157,6 +171,20 @@ def build(dspec):
             snake += [(i, j) for j in (range(g) if i % 2 == 0 else range(g - 1, -1, -1))]
         mazes = [SolvedMaze(connection_list=cl.copy(), solution=np.array(snake[:k]), generation_meta=None) for k in ks]
         return MazeDataset(MazeDatasetConfig(name="long", grid_n=g, n_mazes=len(ks), seed=5), mazes), None
+    if dspec[0] == "many":
+        # n hand-built mazes (3x3 trees; maze i has its own tree, endpoints and solution length, so a row that moves shows) under a
+        # configuration whose generator arguments are floats with long expansions (1/3, 0.1 + 0.2, ...): counts beyond any batch size
+        _, g, n, mode = dspec
+        trees = R.trees(g, g)
+        cells = R.cells(g, g)
+        mazes = []
+        for i in range(n):
+            cl = R.graph_from_bits(g, g, trees[(i * 37 + 11) % len(trees)])
+            a, b = cells[i % len(cells)], cells[(i * 5 + 3 + i // len(cells)) % len(cells)]
+            mazes.append(SolvedMaze(connection_list=cl, solution=np.array(R.all_shortest_paths(R.adjacency(cl), a, b)[0]), generation_meta=None))
+        cfg = MazeDatasetConfig(name="many", grid_n=g, n_mazes=n, seed=5, maze_ctor=GENERATORS_MAP["gen_dfs_percolation"],
+                                maze_ctor_kwargs=dict(p=LONG_FLOATS[n % len(LONG_FLOATS)]))
+        return MazeDataset(cfg, mazes), None
     if dspec[0] == "stale":
         # a dataset whose configuration declares another count than it holds (hand-built, or sliced after generation)
         _, g, pat, delta, mode = dspec
@@ -605,7 +633,7 @@ def run(ctx):
                                      datasets="two datasets with the same n_mazes / grid / longest solution and different mazes"),
         generated_datasets=sum(1 for d in dspecs if d[0] == "gen"), crafted_datasets=sum(1 for d in dspecs if d[0] == "craft"),
         generators=generators(), grids=sorted({d[2] if d[0] == "gen" else d[1] for d in dspecs}),
-        lengths=sorted({d[3] if d[0] == "gen" else len(d[2]) for d in dspecs}),
+        lengths=sorted({d[3] if d[0] == "gen" else d[2] if d[0] == "many" else len(d[2]) for d in dspecs}),
         formats=list(DIRECT_FORMATS) + ["serialize() under threshold in {None,0,1,n,n+1}"], transports=["memory", "file (ZANJ)"],
         collection_member_kinds={k: list(v) for k, v in MEMBER_KINDS.items()}, collection_thresholds=list(COLL_THRESHOLDS),
         collection_wirings=list(WIRINGS), default_threshold_restored=MD.SERIALIZE_MINIMAL_THRESHOLD,
